@@ -512,7 +512,13 @@ pub fn run_property(p: &Property, tier: Tier, seed: u64, only_lane: Option<&str>
             merged.absorb(r);
         }
         if let Some((f, c)) = merged.failure.clone() {
-            violations.push((lane.name().to_string(), f, c));
+            if f.sig.starts_with("env-") {
+                // environment trouble (cannot bind, guard timeout): inconclusive, never a violation
+                merged.note = Some(format!("environment problem [{}] {}", f.sig, f.msg));
+                merged.failure = None;
+            } else {
+                violations.push((lane.name().to_string(), f, c));
+            }
         }
         lane_reports.push(merged);
     }
